@@ -1,6 +1,7 @@
 """C14 - equivalent ways of stating the same customisation give identical
 output."""
 import ast
+import re
 
 from sa import pyflow
 from sa.symbols import Program
@@ -600,6 +601,32 @@ def rule_r10(repo, run):
     run.floor(R, "format groups applied by node constructors", n, 4)
 
 
+def rule_r11(repo, run):
+    R = run.rule("C14.R11", "CXX_this may be set in the format group of a class or of one method (docs: \"it may be necessary to set this "
+                            "if it conflicts with an argument name\"): the method's wrapper declares the object pointer with {CXX_this} "
+                            "and calls through {CXX_this_call}, so the call prefix is derived from the method's own CXX_this")
+    wc = repo.module("wrapc")
+    wf = wc.func("Wrapc.wrap_function")
+    uses_direct = any(isinstance(c, ast.Constant) and isinstance(c.value, str) and "{CXX_this}" in c.value for c in ast.walk(wf))
+    uses_call = any(isinstance(c, ast.Constant) and isinstance(c.value, str) and "{CXX_this_call}" in c.value for c in ast.walk(wf))
+    if not (uses_direct and uses_call):
+        raise AnalysisError("C14.R11: wrap_function no longer uses {CXX_this} and {CXX_this_call}")
+    derived = [a for a in ast.walk(wf) if isinstance(a, ast.Assign) and ast.unparse(a.targets[0]) == "fmt_func.CXX_this_call"
+               and "fmt_func.CXX_this" in ast.unparse(a.value).replace("fmt_func.CXX_this_call", "")]
+    # the declaration of the object pointer: the derivation must hold on the same path
+    decl = [c for c in ast.walk(wf) if isinstance(c, ast.Constant) and isinstance(c.value, str) and re.search(r"\*\{CXX_this\} =", c.value)]
+    same_path = False
+    for a in derived:
+        for d in decl:
+            if pyflow.path_atoms(a, stop=wf, seg=ast.unparse) <= pyflow.path_atoms(d, stop=wf, seg=ast.unparse):
+                same_path = True
+    run.check(R, "wrapc.Wrapc.wrap_function:CXX_this_call<-CXX_this", bool(derived) and same_path,
+              "the call prefix {CXX_this_call} is only computed per class (wrap_class: fmt_class.CXX_this + \"->\") while the method's "
+              "wrapper declares `{cxx_type} *{CXX_this} = ...` from its own format: `format: {CXX_this: obj}` on a method declares "
+              "`A *obj` and calls `SH_this->m(a)` (does not compile; at class level the same setting works)", wc.loc(wf))
+
+
+
 def run(repo, run, tier):
     rule_r1(repo, run)
     rule_r2(repo, run)
@@ -611,3 +638,4 @@ def run(repo, run, tier):
     rule_r8(repo, run)
     rule_r9(repo, run)
     rule_r10(repo, run)
+    rule_r11(repo, run)
